@@ -180,10 +180,13 @@ def one_config(ctx, kind, v, dt, mode, full=True):
     snap = v.copy()
     xscale = float(np.max(np.abs(vf))) * abs(dt) if npts else 0.0
     results = []
-    for label, k, kw in entry_points(mode, npts):
+    eps = entry_points(mode, npts)
+    for ie, (label, k, kw) in enumerate(eps):
         res = call_impl(impl_spectrum, v, dt, k, kw)
         results.append((label, res))
         fn = label.split('(')[0]
+        if N > 128 and 0 < ie < len(eps) - 1:
+            continue   # the O(N^2) model run is repeated for the first and the last entry point only; C06.d ties the others bit for bit
         ctx.corr(fn, request_for(mode, k, kw, vf, dt), res,
                  lambda outs, val, fn=fn, xscale=xscale: cmp_spectrum(ctx, fn, outs, val, xscale), inputs=inputs)
     ctx.oracle('input array unchanged', np.array_equal(v, snap), inputs)
@@ -396,7 +399,7 @@ CORPUS_PERIOD = [
 def run(ctx):
     rng = ctx.rng
     quick = ctx.tier == 'quick'
-    nmax = 2048 if quick else 8192
+    nmax = 1024 if quick else 8192
 
     # ---- transform-length rule against the model (integers, exact) ----------------------------------------------------
     for npts in list(range(1, 130)) + [255, 256, 257, 511, 512, 513, 1023, 1024, 1025, 4684, 2**20 - 1, 2**20, 2**20 + 1]:
